@@ -17,7 +17,7 @@ RULE = ("Wrapper chains of length 1..7 over synthetic manager objects (unwrap_co
         "expected hook-invocation log (elaborate on the original, unwrap, reset, elaborate again, ...) and the expected final "
         "obj / hide / description / inner_stack / children; the generator hook must receive the generator's outermost frame on "
         "both paths (inner stack present; exiting); a cycle must end in the 100-step RuntimeError; the three ways must agree. "
-        "A few cases per shard run in a process of their own, so that the fill_context() outside any extraction is the first stackscope call that process ever makes (nothing has run add_glue_as_needed yet). "
+        "A few cases per shard run in a process of their own, so that the fill_context() outside any extraction is the first stackscope call that process ever makes (nothing has run add_glue_as_needed yet); in half of these the hooks of the synthetic managers are registered by the _stackscope_install_glue_ function of a module that has appeared in sys.modules but has not been seen by any extraction. "
         "Non-trivial: >= 2 successful unwrap steps, or a PRUNE, or a generator-based link reached; distinct = distinct IR.")
 ASSUMPTIONS = [
     "the description set by the built-in contextlib glue is only recognised as 'set by the glue', its text is not asserted",
@@ -178,9 +178,11 @@ def check_case(ws, interps, case, out):
 
 def fresh_process_case(interps, case, out):
     """the case's fill_context() outside any extraction is the FIRST stackscope call the process ever makes"""
-    with WorkerSet(interps, hooks=False) as ws:
+    pending = bool(case.get("pending_glue"))
+    with WorkerSet(interps, hooks=False, extra_env={"VERIF_C11_PENDING_GLUE": "1"} if pending else None) as ws:
         vs = check_case(ws, interps, case, out)
-    out.extra["first_call_in_a_fresh_process"] = out.extra.get("first_call_in_a_fresh_process", 0) + len(interps)
+    key = "first_call_in_a_fresh_process" + (".hooks_are_pending_module_glue" if pending else "")
+    out.extra[key] = out.extra.get(key, 0) + len(interps)
     return vs
 
 
@@ -188,7 +190,9 @@ def shard(arg):
     out = Outcome()
     interps = arg["interps"]
     if arg.get("fresh"):
-        fail = hyp_search(cases(), lambda c: fresh_process_case(interps, c, out), seed=arg["seed"] + 7,
+        # in half of them the hooks of the synthetic managers are the not yet installed glue of a module
+        fresh = st.tuples(cases(), st.booleans()).map(lambda p: dict(p[0], pending_glue=True) if p[1] else p[0])
+        fail = hyp_search(fresh, lambda c: fresh_process_case(interps, c, out), seed=arg["seed"] + 7,
                           max_examples=arg["fresh"], shrink=arg["shrink"])
         if fail:
             v = fail["violations"][0]
@@ -217,7 +221,8 @@ def run(ctx):
 def replay(ctx, data):
     out = Outcome()
     interps = [data["interp"]] if data.get("interp") in ALL else ALL
-    with WorkerSet(interps, hooks=False) as ws:
+    pending = {"VERIF_C11_PENDING_GLUE": "1"} if data["case"].get("pending_glue") else None
+    with WorkerSet(interps, hooks=False, extra_env=pending) as ws:
         # (a worker serves one replay, so a case found by the fresh-process leg is replayed as it was found)
         for v in check_case(ws, interps, data["case"], out):
             out.violation(v["desc"], data["case"], v["interp"])
